@@ -57,7 +57,8 @@ class World:
 
 
 ACTIONS = [(k, f, p) for k in ('oracle', 'gradient', 'value') for f in ('f1', 'f2', 'F') for p in ('x0', 'x0_again', 'comb', 'zero_a', 'zero_b')] + \
-          [('stationary', f, None) for f in ('f1', 'f2', 'F')] + [('prox', f, 'x0') for f in ('f2', 'F')]
+          [('stationary', f, None) for f in ('f1', 'f2', 'F')] + [('prox', f, 'x0') for f in ('f2', 'F')] + \
+          [('fixed', f, None) for f in ('f1', 'F')] + [('prox0', f, p) for f in ('f1', 'f2', 'F') for p in ('x0', 'comb')]
 
 
 def do(w, action):
@@ -67,7 +68,16 @@ def do(w, action):
         x = f.stationary_point()
         w.returns.append((action, x, None, None))
         return
+    if kind == 'fixed':
+        x, gx, fx = f.fixed_point()
+        w.returns.append((action, x, gx, fx))
+        return
     p = w.points[pname]
+    if kind == 'prox0':
+        from PEPit.primitive_steps import proximal_step
+        x, g, v = proximal_step(p, f, 0 if pname == 'x0' else 0.)       # a step of size exactly 0 (int / float): still an evaluation of f at the returned point
+        w.returns.append((action, x, g, v))
+        return
     if kind == 'oracle':
         g, v = f.oracle(p)
         w.returns.append((action, p, g, v))
@@ -101,6 +111,11 @@ def check(w, fails, after):
                     fails.append(('I2.one_value', '%s has two different function values at one point' % name))
                 if f.reuse_gradient and not same_coeffs(a[1].decomposition_dict, b[1].decomposition_dict):
                     fails.append(('I2.one_gradient', 'differentiable %s has two different gradients at one point' % name))
+        # I4: on a LEAF function every sample at a new point brings its own value variable (two different points never share one value leaf)
+        if name != 'F':
+            for (a, b) in itertools.combinations(pts, 2):
+                if not same_coeffs(a[0].decomposition_dict, b[0].decomposition_dict) and a[2] is b[2]:
+                    fails.append(('I4.own_value', '%s: samples at two different points share one function-value object' % name))
     # I3 on the composite
     F = w.F
     wts = w.leaf_weights(F)
@@ -130,7 +145,12 @@ def check(w, fails, after):
             if not st or pruned(st[0][1].decomposition_dict) != {}:
                 fails.append(('R.stationary', 'a declared stationary point of %s has a non-zero total gradient' % fname))
             continue
-        if kind == 'prox':
+        if kind in ('prox', 'prox0', 'fixed'):
+            # the returned triple is a sample recorded on the function (the returned gradient / value ARE those of f at the returned point)
+            if not any(t[1] is g and t[2] is v and same_coeffs(t[0].decomposition_dict, x.decomposition_dict) for t in f.list_of_points):
+                fails.append(('R.recorded', 'the triple returned by %s on %s is not a recorded sample of that function' % (kind, fname)))
+            if kind == 'fixed' and not same_coeffs(g.decomposition_dict, x.decomposition_dict):
+                fails.append(('R.fixed', 'fixed_point of %s returns an image different from the point' % fname))
             continue
         key = (fname, tuple(sorted((id(k), c) for k, c in pruned(x.decomposition_dict).items())))
         prev = by.get(key)
@@ -162,6 +182,14 @@ def run_sequence(layout, seq):
     return fails
 
 
+def zero_step_first(seq):
+    """A proximal step of size exactly 0 lands on its starting point and records a sample there whatever was recorded before (the step does not look the
+    point up): after an earlier evaluation at that point the function then holds two value variables for one point, which only the class constraints tie
+    together.  That corner is a deliberate property of the steps (they always record, C08) and is not what this check is about: zero-size steps are
+    exercised as the FIRST call of a sequence only (nothing recorded before; later calls must find and reuse what the step recorded)."""
+    return all(a[0] != 'prox0' for a in seq[1:])
+
+
 def sequences(seed, thorough=False):
     rng = random.Random(seed)
     out = []
@@ -169,12 +197,16 @@ def sequences(seed, thorough=False):
     for lay in layouts:
         for a in ACTIONS:
             out.append((lay, (a,)))
-        pairs = list(itertools.product(ACTIONS, ACTIONS))
+        pairs = [pr for pr in itertools.product(ACTIONS, ACTIONS) if zero_step_first(pr)]
         rng.shuffle(pairs)
-        for pr in pairs[:(len(pairs) if thorough else 250)]:
+        for pr in pairs[:(len(pairs) if thorough else 300)]:
             out.append((lay, pr))
-        for _ in range(400 if thorough else 60):
-            out.append((lay, tuple(rng.choice(ACTIONS) for _ in range(rng.choice([3, 4])))))
+        n = 0
+        while n < (400 if thorough else 70):
+            sq = tuple(rng.choice(ACTIONS) for _ in range(rng.choice([3, 4])))
+            if zero_step_first(sq):
+                out.append((lay, sq))
+                n += 1
     return out
 
 
@@ -193,3 +225,52 @@ def run_all(seed, thorough=False, jobs=16):
     with ctx.Pool(jobs) as pool:
         res = pool.map(_task, seqs, chunksize=40)
     return len(seqs), [(t, f) for t, f in res if f]
+
+
+# ------------------------------------------------------------------------------------------------ differentiability flag of every shipped class
+REQUIRED = {'L': 2., 'mu': .5, 'M': 1., 'beta': .5, 'rho': .5, 'D': 1.}
+
+
+def constructor_flags():
+    """every shipped function / operator class, declared through PEP.declare_function: the differentiability flag asked for is the one the function carries
+    (explicit True / explicit default / omitted), and the name is the one given.  Expectations come from the class's own signature."""
+    import inspect
+    import PEPit.functions as F
+    import PEPit.operators as O
+    from PEPit import PEP
+    fails, n = [], 0
+    for mod in (F, O):
+        for cname in sorted(dir(mod)):
+            cls = getattr(mod, cname)
+            if not inspect.isclass(cls):
+                continue
+            sig = inspect.signature(cls.__init__)
+            if 'reuse_gradient' not in sig.parameters:
+                continue
+            default = sig.parameters['reuse_gradient'].default
+            pep = PEP()
+            kw = {k: REQUIRED[k] for k, p in sig.parameters.items() if p.default is inspect._empty and k in REQUIRED}
+            if 'partition' in sig.parameters:
+                kw['partition'] = pep.declare_block_partition(d=2)
+                kw['L'] = [1., 2.]
+            for given in ('omitted', True, default):
+                args = dict(kw) if given == 'omitted' else dict(kw, reuse_gradient=given)
+                want = default if given == 'omitted' else given
+                try:
+                    f = pep.declare_function(cls, name='fn', **args)
+                except Exception as e:       # noqa
+                    fails.append(('flag.constructor', '%s(%s) raised %s' % (cname, args, type(e).__name__)))
+                    continue
+                n += 1
+                if bool(f.reuse_gradient) != bool(want):
+                    fails.append(('flag.reuse_gradient', '%s declared with reuse_gradient=%s carries reuse_gradient=%r' % (cname, given, f.reuse_gradient)))
+                if f.get_name() != 'fn':
+                    fails.append(('flag.name', '%s declared with a name carries the name %r' % (cname, f.get_name())))
+                if given is True and f.reuse_gradient:
+                    # a differentiable function returns the same gradient at the same point
+                    from PEPit import Point
+                    x = Point()
+                    g1, g2 = f.gradient(x), f.gradient(x)
+                    if g1 is not g2 and g1.decomposition_dict != g2.decomposition_dict:
+                        fails.append(('flag.same_gradient', '%s declared differentiable returns two gradients at one point' % cname))
+    return n, fails
